@@ -124,7 +124,7 @@ def runScript (w : World) (tb : Tables) (pl : HandlePlan) (script : List BOp) (f
       let (f, rd, re) := flightReadN w pl k buf (k + 2) f 0 b.read b.readEnd
       (f, { b with read := rd, readEnd := re })
     | .readall buf =>
-      let (f, rd, re) := flightReadAll w pl buf (300 * f.st.src.fuel + 4096) f b.read
+      let (f, rd, re) := flightReadAll w pl buf (300 * f.st.src.fuel + 300 * f.st.op.query.length * 64 + 1048576) f b.read
       (f, { b with read := rd, readEnd := re })
     | .sethdr k v => ({ f with st := f.st.setHdr (f.st.hdr.set k v) }, b)
     | .addhdr k v => ({ f with st := f.st.setHdr (Hdr.add f.st.hdr k v) }, b)
